@@ -323,7 +323,26 @@ C02Checks(e) ==
                      [i \in 1..n |-> << MY(T[i]), MM(T[i]) >>] = labels))
 C02Year == IsEv("C02Year") /\ Consume(C02Checks(Trace[l]))
 
+(***************************************************************************)
+(* C02Icu: the month table against ICU's Chinese calendar (1900..2100).    *)
+(* ICU's new moons / terms are good to about a quarter of an hour: a       *)
+(* disagreement is accepted (counted as ambiguous) only next to a new moon *)
+(* of the library's own ephemeris within 0.13 degree of elongation         *)
+(* (15 min) of midnight, or - for leap labelling - in a year with a term   *)
+(* within 10 minutes of midnight.                                          *)
+(***************************************************************************)
+C02IcuChecks(e) ==
+  LET nearMoon(j) == \E i \in 1..Len(e.nm) : e.nm[i][1] <= j + 1 /\ j + 1 <= e.nm[i][1] + 31
+                                             /\ (AbsV(e.nm[i][2]) < 130000 \/ AbsV(e.nm[i][3]) < 130000)
+      nearTerm == \E i \in 1..Len(e.terms) : e.terms[i][2] < 600
+  IN SumSeq(e.rows, LAMBDA r :
+       IF << r[4], r[5], r[6] >> = << r[7], r[8], r[9] >> THEN 0
+       ELSE IF r[6] = r[9] /\ r[4] = r[7]
+         THEN Chk("C02.icu.leap-labelling", << r[1], r[2], r[3], << r[4], r[5], r[6] >>, << r[7], r[8], r[9] >> >>, nearTerm \/ nearMoon(r[10]))
+         ELSE Chk("C02.icu.month-start", << r[1], r[2], r[3], << r[4], r[5], r[6] >>, << r[7], r[8], r[9] >> >>, nearMoon(r[10])))
+C02Icu == IsEv("C02Icu") /\ Consume(C02IcuChecks(Trace[l]))
+
 TraceInit == KitInit
-TraceNext == C06Year \/ LunarEdge \/ C01Year \/ C03Year \/ C05Year \/ C02Year
+TraceNext == C06Year \/ LunarEdge \/ C01Year \/ C03Year \/ C05Year \/ C02Year \/ C02Icu
 TraceSpec == TraceInit /\ [][TraceNext]_tvars
 =============================================================================
